@@ -426,6 +426,101 @@ func (g *gen) reflList(m *Message, f *Field) {
 	}
 	g.p("")
 }
+// reflListSeq: three consecutive operations through ONE retained Mutable view
+func (g *gen) reflListSeq(m *Message, f *Field) {
+	n := m.GoName
+	isMsg := f.Kind == "message"
+	g.p("// a list view obtained once through Mutable stays attached across reallocation, truncation and overwrite")
+	g.p("func VH_C08_%s_%s_viewseq() {", n, f.GoName)
+	g.reflPre(m, f, 0)
+	g.p("\tl := m.Mutable(fd).List()")
+	g.p("\tif exp.%s == nil {", f.GoName)
+	g.p("\t\texp.%s = %s{}", f.GoName, f.GoType)
+	g.p("\t}")
+	g.p("\tfor step := 0; step < 3; step++ {")
+	g.p("\t\tcur := len(exp.%s)", f.GoName)
+	g.p("\t\tswitch vhChoice(vhIdx(\"op\", step), 3) {")
+	g.p("\t\tcase 0:")
+	if isMsg {
+		g.p("\t\t\tv := &%s{}", f.MsgName)
+		g.p("\t\t\tif step == 0 {")
+		g.p("\t\t\t\tvhFill_%s(v)", f.MsgName)
+		g.p("\t\t\t}")
+	} else {
+		g.p("\t\t\tv := %s", g.symExpr(f, "vhIdx(\"v\", step)", 3))
+	}
+	g.p("\t\t\tl.Append(%s)", pvOf(f, "v"))
+	if f.Kind == "bytes" {
+		g.p("\t\t\texp.%s = append(exp.%s, vhCloneBytes(v))", f.GoName, f.GoName)
+	} else {
+		g.p("\t\t\texp.%s = append(exp.%s, v)", f.GoName, f.GoName)
+	}
+	g.p("\t\tcase 1:")
+	g.p("\t\t\tif cur > 0 {")
+	g.p("\t\t\t\tl.Truncate(cur - 1)")
+	g.p("\t\t\t\texp.%s = exp.%s[:cur-1]", f.GoName, f.GoName)
+	g.p("\t\t\t}")
+	g.p("\t\tcase 2:")
+	g.p("\t\t\tif cur > 0 {")
+	if isMsg {
+		g.p("\t\t\t\tv := &%s{}", f.MsgName)
+	} else {
+		g.p("\t\t\t\tv := %s", g.symExpr(f, "vhIdx(\"w\", step)", 3))
+	}
+	g.p("\t\t\t\tl.Set(0, %s)", pvOf(f, "v"))
+	if f.Kind == "bytes" {
+		g.p("\t\t\t\texp.%s[0] = vhCloneBytes(v)", f.GoName)
+	} else {
+		g.p("\t\t\t\texp.%s[0] = v", f.GoName)
+	}
+	g.p("\t\t\t}")
+	g.p("\t\t}")
+	g.p("\t\tvhAssert(\"view.len\", l.Len() == len(exp.%s))", f.GoName)
+	g.p("\t}")
+	g.p("\tvhAssertEq_%s(\"state\", exp, x)", n)
+	g.p("}")
+	g.p("")
+}
+
+// reflMapSeq: three consecutive operations through ONE retained Mutable map view
+func (g *gen) reflMapSeq(m *Message, f *Field) {
+	n := m.GoName
+	vMsg := f.Val.Kind == "message"
+	if vMsg && f.Val.MsgName == "" {
+		return
+	}
+	g.p("// a map view obtained once through Mutable stays attached across several Set/Clear calls")
+	g.p("func VH_C08_%s_%s_viewseq() {", n, f.GoName)
+	g.reflPre(m, f, 0)
+	g.p("\tmv := m.Mutable(fd).Map()")
+	g.p("\tif exp.%s == nil {", f.GoName)
+	g.p("\t\texp.%s = %s{}", f.GoName, f.MapGo)
+	g.p("\t}")
+	g.p("\tfor step := 0; step < 3; step++ {")
+	g.p("\t\tk := %s", g.symExpr(f.Key, "vhIdx(\"k\", step)", 1))
+	g.p("\t\tif vhChoice(vhIdx(\"op\", step), 2) == 0 {")
+	if vMsg {
+		g.p("\t\t\tv := &%s{}", f.Val.MsgName)
+	} else {
+		g.p("\t\t\tv := %s", g.symExpr(f.Val, "vhIdx(\"v\", step)", 3))
+	}
+	g.p("\t\t\tmv.Set(%s, %s)", mapKeyPV(f.Key, "k"), pvOf(f.Val, "v"))
+	if f.Val.Kind == "bytes" {
+		g.p("\t\t\texp.%s[k] = vhCloneBytes(v)", f.GoName)
+	} else {
+		g.p("\t\t\texp.%s[k] = v", f.GoName)
+	}
+	g.p("\t\t} else {")
+	g.p("\t\t\tmv.Clear(%s)", mapKeyPV(f.Key, "k"))
+	g.p("\t\t\tdelete(exp.%s, k)", f.GoName)
+	g.p("\t\t}")
+	g.p("\t\tvhAssert(\"view.len\", mv.Len() == len(exp.%s))", f.GoName)
+	g.p("\t}")
+	g.p("\tvhAssertEq_%s(\"state\", exp, x)", n)
+	g.p("}")
+	g.p("")
+}
+
 func mapKeyPV(k *Field, v string) string {
 	return pvOf(k, v) + ".MapKey()"
 }
@@ -627,6 +722,7 @@ func (g *gen) ReflectSource(msgs []*Message, fieldFilter func(m *Message, f *Fie
 	g.pick = 1
 	g.mapN, g.listN = 2, 2
 	g.strLen = 4
+	g.propTag = "C08"
 	g.header()
 	g.driversOnce()
 	g.decodeCommon()
@@ -647,11 +743,13 @@ func (g *gen) ReflectSource(msgs []*Message, fieldFilter func(m *Message, f *Fie
 			switch {
 			case f.Card == "map":
 				g.reflMap(m, f)
+				g.reflMapSeq(m, f)
 			case f.Card == "repeated":
 				if f.Kind == "message" && f.MsgName == "" {
 					continue
 				}
 				g.reflList(m, f)
+				g.reflListSeq(m, f)
 			case f.Kind == "message":
 				if f.MsgName == "" {
 					continue
@@ -999,6 +1097,7 @@ func (g *gen) apiField(m *Message, f *Field) {
 }
 
 func (g *gen) ReflectAuxSource(prop string, msgs []*Message, fieldFilter func(m *Message, f *Field) bool) string {
+	g.propTag = prop
 	g.lightAny = true
 	g.pick = 1
 	g.mapN, g.listN = 2, 2
